@@ -74,7 +74,20 @@ def cb_spare_capacity(case):
     return False
 
 
+def cb_nested_repeat(case):
+    """Input-side classifier: some callbacks option's designation list names the same NESTED path (length > 1) more than once."""
+    for h in case["handlers"]:
+        if h["kind"] != "des":
+            continue
+        ps = [tuple(p) for p in h["paths"] if len(p) > 1]
+        if len(ps) != len(set(ps)):
+            return True
+    return False
+
+
 def c10_classify(case, reason):
+    if reason in ("start-twice", "end-twice") and cb_nested_repeat(case):
+        return "nested-path-repeated-in-one-callbacks-option"
     if reason in ("handler-invoked-for-foreign-unit", "end-twice", "start-twice", "start-missing", "end-missing", "end-without-start") \
             and cb_spare_capacity(case):
         return "handler-slice-spare-capacity-shared-by-parallel-nodes"
@@ -122,7 +135,9 @@ def c10(tier, repo=None):
                 ("KeepScope: InitCallbacks without handlers returns ctx unchanged (detached scope reports to the enclosing node)", "det",
                  dict(keepscope=True, mg=1, mu=2, mo=2, md=1)),
                 ("ExtractFirst: extractOption in front of the deferred start/end pairing (rejected run reports nothing)", "nest",
-                 dict(extractfirst=True, mu=2, mo=2, md=1))]
+                 dict(extractfirst=True, mu=2, mo=2, md=1)),
+                ("NoBreak: initNodeCallbacks without the break after the first matching path (a node named twice gets the handler twice)", "par2",
+                 dict(nobreak=True, mg=0, mu=2, mo=2, md=1, multi=True))]
     for what, shape, kw in variants:
         jobs.append(lambda shape=shape, kw=kw: cb.cb_model(shape, fix=True, workers=1, timeout=170, **kw))
     jobs.append(lambda: cb.cb_model("par2", fix=False, workers=1, timeout=170, mg=1))
@@ -158,7 +173,7 @@ def c10(tier, repo=None):
                 ("sbr", dict(mg=2, mu=4, mo=4, md=2), None, 2000), ("nsbr", dict(mg=2, mu=4, mo=4, md=2, multi=True), None, 2500),
                 ("tools", dict(mg=2, mu=4, mo=4, md=2), None, 3000), ("det", dict(mg=2, mu=4, mo=4, md=2), "num=2000", 3000)]
     else:
-        gens = [("par2", dict(mg=1, mu=3, mo=3, md=2), None, 550), ("par2", dict(mg=1, mu=2, mo=2, md=1, multi=True), None, 120),
+        gens = [("par2", dict(mg=1, mu=3, mo=3, md=2), None, 550), ("par2", dict(mg=1, mu=2, mo=2, md=1, multi=True), None, 180),
                 ("seq", dict(mg=1, mu=3, mo=3), None, 60),
                 ("nestdup", dict(mu=3, mo=3), "num=150", 220), ("nest", dict(mu=3, mo=3), "num=150", 220), ("par3", dict(mu=3, mo=3), "num=120", 200),
                 # one option designated to SEVERAL paths, top-level and nested, in both orders
